@@ -866,6 +866,15 @@ class ModelParser(object):
         nodes = self.parser.parse(*parse_args)
         if self.patcher:
             self.patcher(nodes)
+        try:
+            return self._evaluate(nodes, parse_args)
+        except ModelError as e:
+            """ the file is known here (the line is not: these are properties of the finished model) """
+            if len(parse_args) > 1 and isinstance(parse_args[1], six.string_types) and parse_args[1] and not str(e).startswith(parse_args[1]):
+                raise ModelError("%s: error: %s" % (parse_args[1], e))
+            raise
+
+    def _evaluate(self, nodes, parse_args):
         validate_unique_names(nodes)
         if len(parse_args) > 1 and isinstance(parse_args[1], six.string_types):
             """ outputs are named after the file: it cannot include another file of its own name """
